@@ -760,9 +760,11 @@ def do_step(w: World, step: dict) -> None:
                                     "suppress_blank", "output_limit", "replace_json", "translation_filters",
                                     "currency_de", "loader_add"):
                 return
-        elif w.plan["envs"][ei]["loader"].startswith("c") and step["what"] in ("del_filter", "trim", "replace_tag"):
-            # parse-time configuration: a caching loader legitimately keeps templates parsed
-            # under the earlier configuration, a fresh one re-parses them (not a C09 matter)
+        elif w.plan["envs"][ei]["loader"].startswith("c") and step["what"] in ("del_filter", "trim", "replace_tag",
+                                                                                "loader_add"):
+            # parse-time configuration (and changes of the loader's contents): a caching loader
+            # legitimately keeps templates parsed under the earlier configuration / contents,
+            # a fresh one re-parses them (permitted staleness is C14's subject, not C09's)
             w.count("config_skipped_parse_time_on_caching_loader")
             return
         # the outcomes recorded after the previous configure step serve as "before": nothing a
